@@ -425,7 +425,7 @@ func c09AliasProgram(i int) *Program {
 
 func c09Cases(tier string) int {
 	if tier == "thorough" {
-		return len(c09AliasForms) + 300000 + 200000
+		return len(c09AliasForms) + 1000000 + 600000
 	}
 	return len(c09AliasForms) + 20000 + 20000
 }
@@ -435,7 +435,7 @@ func c09Run(c *Case) {
 	na := len(c09AliasForms)
 	nh := 20000
 	if c.Tier == "thorough" {
-		nh = 300000
+		nh = 1000000
 	}
 	switch {
 	case i < na:
